@@ -388,7 +388,7 @@ def replay_native(exes, body, params, vals, timeout=120):
     for exe in exes:
         if not exe:
             continue
-        a = [exe, body, ",".join(str(int(p)) for p in params) or "-", ",".join(str(int(v)) for v in vals) or "-"]
+        a = [exe, body, ",".join(str(int(p)) for p in params) or "-", ",".join(str(int(v) & ((1 << 64) - 1)) for v in vals) or "-"]
         try:
             p = subprocess.run(a, stdout=subprocess.PIPE, stderr=subprocess.STDOUT, text=True, timeout=timeout)
         except subprocess.TimeoutExpired:
